@@ -115,12 +115,55 @@ pub fn encode(v: u128, w: usize, end: End) -> Vec<u8> {
     }
 }
 
+/// an honest source that panics at a chosen trait call
+struct PanicAfter {
+    inner: super::BX,
+    calls: std::cell::Cell<usize>,
+    at: usize,
+}
+impl Buf for PanicAfter {
+    fn remaining(&self) -> usize {
+        self.inner.remaining()
+    }
+    fn chunk(&self) -> &[u8] {
+        if self.at % 2 == 1 {
+            let c = self.calls.get();
+            self.calls.set(c + 1);
+            if c == self.at / 2 {
+                panic!("faulty source: chunk() panics");
+            }
+        }
+        self.inner.chunk()
+    }
+    fn advance(&mut self, n: usize) {
+        if self.at % 2 == 0 {
+            let c = self.calls.get();
+            self.calls.set(c + 1);
+            if c == self.at / 2 {
+                panic!("faulty source: advance() panics");
+            }
+        }
+        self.inner.advance(n)
+    }
+}
+impl super::BufX for PanicAfter {
+    fn dismantle(self: Box<Self>) -> Vec<super::BX> {
+        vec![self.inner]
+    }
+    fn tname(&self) -> &'static str {
+        "PanicAfter"
+    }
+}
+
 #[derive(Clone, Debug)]
 pub enum WOp {
     PutSlice(usize),
     PutBytes(u8, usize),
     Typed(usize, u128, usize), // row, value, nbytes
     PutBuf(Spec, bool),        // reader tree, through the default `put` on Box<dyn>
+    /// `put` of an honest multi-chunk source that panics in its k-th advance() (even k) / chunk() (odd k) call.
+    /// Always the last op of a case: afterwards the target must account for exactly the bytes it really holds.
+    PutBufFaulty(Spec, usize, bool),
     SetLimit(usize),
     /// the manual protocol: fill chunk_mut() through the UninitSlice API, then advance_mut
     Manual(usize, u8),
@@ -230,6 +273,8 @@ pub fn run_case(o: &mut Obs, spec: &WSpec, ops: &[WOp], path: usize, use_writer:
     let mut lim_over: Option<(usize, usize)> = None;
     o.inc("cases");
     let mut ended_by_panic = false;
+    // the model of a source whose put was cut short by the source's own panic
+    let mut faulted: Option<Vec<u8>> = None;
     if !step_laws(o, spec, &mut root, room_after(spec, 0, None), case, "construction") {
         return crate::rng::fnv_u64(dg, 9);
     }
@@ -347,6 +392,17 @@ pub fn run_case(o: &mut Obs, spec: &WSpec, ops: &[WOp], path: usize, use_writer:
                     (encode(*v, w, row.end), r)
                 }
             }
+            WOp::PutBufFaulty(rs, at, via_default) => {
+                let src: super::BX = Box::new(PanicAfter { inner: super::build(rs), calls: std::cell::Cell::new(0), at: *at });
+                let r = if *via_default { catch(|| BufMut::put(&mut root, src)) } else { catch(|| root.put_buf(src)) };
+                o.inc("faulty_source_puts");
+                if r.is_err() {
+                    faulted = Some(rs.model());
+                    ended_by_panic = true;
+                    break;
+                }
+                (rs.model(), r)
+            }
             WOp::PutBuf(rs, via_default) => {
                 let src = super::build(rs);
                 let m = rs.model();
@@ -422,6 +478,7 @@ pub fn run_case(o: &mut Obs, spec: &WSpec, ops: &[WOp], path: usize, use_writer:
             return crate::rng::fnv_u64(dg, 13);
         }
     }
+    let rm_root_before_dismantle = root.remaining_mut();
     // take the tree apart and look at every leaf
     let mut states = Vec::new();
     let mut limits = Vec::new();
@@ -479,6 +536,31 @@ pub fn run_case(o: &mut Obs, spec: &WSpec, ops: &[WOp], path: usize, use_writer:
         let k = got.iter().zip(&written).position(|(a, b)| a != b).unwrap_or(got.len().min(written.len()));
         viol(o, spec, "contents", case, &format!("target holds {} appended bytes, expected {} (first difference at {k}, cmp {cmp_len}); ops={:?} path={}", got.len(), written.len(), ops, PATHS[path]));
         return crate::rng::fnv_u64(dg, 9);
+    }
+    if let Some(src) = &faulted {
+        // the put was interrupted by the source: whatever reached the target must be a prefix of the source, in
+        // leaf order, and the target's own accounting must agree with the bytes it really holds
+        let extra = &got[written.len()..];
+        o.inc("faulty_source_checks");
+        if extra.len() > src.len() || extra != &src[..extra.len()] {
+            viol(o, spec, "faulty-source-contents", case, &format!("after the source panicked the target holds {} new bytes that are not a prefix of the source", extra.len()));
+            return crate::rng::fnv_u64(dg, 9);
+        }
+        if lim_over.is_none() {
+            let mut want = Vec::new();
+            distribute(spec, got.len(), &mut want);
+            if want != per_leaf {
+                viol(o, spec, "faulty-source-chain-order", case, &format!("after the source panicked: bytes per leaf {per_leaf:?}, expected {want:?}"));
+                return crate::rng::fnv_u64(dg, 9);
+            }
+        }
+        if let Some(r) = room_after(spec, got.len(), lim_over) {
+            if rm_root_before_dismantle != r {
+                viol(o, spec, "faulty-source-accounting", case, &format!("after the source panicked the target holds {} appended bytes but reports remaining_mut()={rm_root_before_dismantle}, expected {r}; ops={ops:?}", got.len()));
+                return crate::rng::fnv_u64(dg, 9);
+            }
+        }
+        return crate::rng::fnv_u64(dg, 5 + got.len() as u64);
     }
     // read back with the matching getters
     let grows = super::getters::rows();
@@ -611,12 +693,22 @@ pub fn writers(a: &Args, o: &mut Obs) {
                     }
                 }
                 WOp::PutBuf(s, _) => s.model().len(),
+                WOp::PutBufFaulty(s, _, _) => s.model().len(),
                 WOp::Manual(k, _) => *k,
                 _ => 0,
             };
             ops.push(op);
         }
-        let use_writer = if r.chance(1, 4) { Some(r.below(50)) } else { None };
+        let mut use_writer = if r.chance(1, 4) { Some(r.below(50)) } else { None };
+        if r.chance(1, 5) {
+            // last op: an honest multi-chunk source that panics part-way through the put
+            let left = room.map(|x| x.saturating_sub(used)).unwrap_or(40);
+            let sz = if left == 0 { 0 } else { 1 + r.below(left.min(40)) };
+            let mut salt = g as u64 ^ 0x5eed;
+            let tree = rd::gen_tree(&mut r, 2, sz, &mut salt);
+            ops.push(WOp::PutBufFaulty(tree, r.below(8), r.chance(1, 2)));
+            use_writer = None;
+        }
         if a.flag("show") {
             println!("SHOW {case}: target={} spec={:?} room={:?} ops={:?} path={}", spec.shape(), spec, room, ops, PATHS[path]);
         }
